@@ -153,6 +153,11 @@ structure Global where
   latched : Tid → Nat
   /-- number of `Trigger` critical sections entered -/
   triggers : Nat
+  /-- values returned by `IsDataReady` on each channel, in order (polls by either thread) -/
+  polls : Side → Fin 3 → List Bool
+  /-- for each word of `sent`, in order: whether that `Send` found the channel's interrupt enabled in its
+  critical section (and so went on to call the handler) -/
+  sentIrq : Side → Fin 3 → List Bool
 
 /-- State after construction (`Teakra::Teakra`): everything zero, nobody holds a lock, each thread has its
 script to run. -/
@@ -178,6 +183,8 @@ def init (hostScript dspScript : List Call) (icu : Icu := {}) : Global where
   routed _ := 0
   latched _ := 0
   triggers := 0
+  polls _ _ := []
+  sentIrq _ _ := []
 
 /-- The channel object `data_channels[ch]` of one side. -/
 def Global.chan (g : Global) (s : Side) (ch : Fin 3) : DataChannel := (g.apbp s).dataChannels[ch]
@@ -242,6 +249,7 @@ def execCall (t : Tid) (rest : List Frame) (g : Global) : Call → Option Global
     some { g with apbp := upd g.apbp s r.1,
                   sent := upd g.sent s (upd (g.sent s) ch (g.sent s ch ++ [v])),
                   irqSends := upd g.irqSends t (upd (g.irqSends t) s (g.irqSends t s + (if irq then 1 else 0))),
+                  sentIrq := upd g.sentIrq s (upd (g.sentIrq s) ch (g.sentIrq s ch ++ [irq])),
                   stack := upd g.stack t (if irq then Frame.dataHandler s ch :: rest else rest) }
   | .recv s ch =>
     let r := (g.apbp s).recvData ch
@@ -253,7 +261,9 @@ def execCall (t : Tid) (rest : List Frame) (g : Global) : Call → Option Global
   | .peek s ch =>
     some { g with reads := upd g.reads s (upd (g.reads s) ch (g.reads s ch ++ [(g.apbp s).peekData ch])),
                   stack := upd g.stack t rest }
-  | .isReady _ _ => some { g with stack := upd g.stack t rest }
+  | .isReady s ch =>
+    some { g with polls := upd g.polls s (upd (g.polls s) ch (g.polls s ch ++ [(g.apbp s).isDataReady ch])),
+                  stack := upd g.stack t rest }
   | .getDisable _ _ => some { g with stack := upd g.stack t rest }
   | .setDisable s ch v =>
     some { g with apbp := upd g.apbp s ((g.apbp s).setDisableInterrupt ch v), stack := upd g.stack t rest }
